@@ -104,6 +104,14 @@ impl Recorder {
         }
     }
 
+    fn emit_list(&mut self, typed: &str, o: &Obs, psel: usize, smart: bool) {
+        let tc: Vec<char> = typed.chars().collect();
+        let tlp: Vec<Value> = (0..=tc.len()).map(|k| chars(&self.or.translit(&tc[..k].iter().collect::<String>()))).collect();
+        let tls: Vec<Value> = (0..=tc.len()).map(|k| chars(&self.or.translit(&tc[tc.len() - k..].iter().collect::<String>()))).collect();
+        self.emit(json!({"ev": "list", "typed": chars(typed), "cands": o.cands.iter().map(|c| chars(c)).collect::<Vec<_>>(),
+                         "sel": o.sel, "psel": psel, "tlp": tlp, "tls": tls, "smart": smart}));
+    }
+
     /// C09 driver: commit-heavy sessions with restarts, re-typing, suffixed re-typing, wrapping punctuation.
     pub fn driver_store(&mut self, rounds: usize) {
         let punct_lead = ["", "", "(", "\"", "'", "[", "*", "\"'"];
@@ -115,6 +123,35 @@ impl Recorder {
             self.emit(json!({"ev": "reset", "round": round, "cfg": cfg}));
             let mut ctx = Ctx::new(&cfg, &self.home).unwrap();
             let mut learned: Vec<(String, String, String)> = Vec::new(); // (lead, word, trail) typed with a learning commit
+            // directed: learn a base, look at base + suffix, change the learned choice of the base, look at base + suffix again
+            if self.rng.below(2) == 0 {
+                let w = self.rng.pick(BASE_WORDS).to_string();
+                let sfx = self.rng.pick(SUFFIX_SAMPLE).to_string();
+                let mut first_idx = None;
+                for pass in 0..2 {
+                    let (o, _) = self.type_text_sel(&mut ctx, &w);
+                    if o.kind != "full" || o.cands.len() < 3 {
+                        if o.kind != "panic" { ctx.finish(); self.emit(json!({"ev": "finish"})); }
+                        break;
+                    }
+                    self.emit_list(&w, &o, 0, smart);
+                    let n = o.cands.len();
+                    let mut idx = (o.sel + 1 + self.rng.below(n - 1)) % n;
+                    if Some(idx) == first_idx { idx = (idx + 1) % n; if idx == o.sel { idx = (idx + 1) % n; } }
+                    first_idx.get_or_insert(idx);
+                    let oc = ctx.commit(idx);
+                    self.emit(json!({"ev": "commit", "idx": idx, "panic": oc.panic.clone().unwrap_or_default()}));
+                    if oc.kind == "panic" { ctx = Ctx::new(&cfg, &self.home).unwrap(); self.emit(json!({"ev": "restart"})); break; }
+                    let st = self.store_state(&self.home);
+                    self.emit(json!({"ev": "file", "state": st}));
+                    let t2 = format!("{}{}", w, sfx);
+                    let (o2, psel2) = self.type_text_sel(&mut ctx, &t2);
+                    if o2.kind == "full" { self.emit_list(&t2, &o2, psel2, smart); }
+                    if o2.kind != "panic" { ctx.finish(); }
+                    self.emit(json!({"ev": "finish"}));
+                    let _ = pass;
+                }
+            }
             for _ in 0..(6 + self.rng.below(6)) {
                 let action = self.rng.below(10);
                 let (lead, word, trail) = if action < 3 && !learned.is_empty() {
